@@ -76,6 +76,7 @@ def observe_case(mod, d, c, how="ctor"):
                 setattr(obj, k, v)
         obs["cv"] = observe.abs_packet(obj)["vals"]
         vis0 = observe.abs_packet(obj, visible=True)["vals"]
+        obs["vis"] = [{"n": e["n"], "v": {"t": "other"} if e["v"].get("t") == "other" else e["v"]} for e in vis0]
         # a second construction must not share mutable state with the first (unless the user passed it)
         other = cls()
         obs["shared_with_fresh"] = len(shared_mutables(obj, other))
@@ -172,6 +173,8 @@ def compare(obs, c):
         return ["ctor_error"]
     if obs["cv"] != c["V"]:
         mm.append("conf_construct")
+    if "Vvis" in c and obs["vis"] != c["Vvis"]:
+        mm.append("C19_Visible")        # what the attributes read as (described fields: forced by keyword, else computed)
     if obs["shared_with_fresh"]:
         mm.append("C13_shared_default")
     p = c["p"]
@@ -266,7 +269,8 @@ def _wrun(chunk):
 
 
 def replay_all(univ, cases, gens, procs=14, chunk=150, sample_ok=0):
-    cases = sorted(cases, key=lambda c: c["d"])
+    import hashlib
+    cases = sorted(cases, key=lambda c: (c["d"], hashlib.md5(json.dumps([c["K"], c["mod"]], sort_keys=True).encode()).hexdigest()))
     chunks = [cases[i:i + chunk] for i in range(0, len(cases), chunk)]
     from bind import declgen, observe, trace_packet      # import errors must surface here, not kill pool workers silently
     ctx = multiprocessing.get_context("fork")
